@@ -1,17 +1,447 @@
-//! module `ellipse` — streams `ellipse.*` (not built yet).
+//! module `ellipse` (serves C05, C06, C18) — the Ellipse primitive.
+//!
+//! Streams (op lines; every result line is compared with the Lean model `EG.Model.Ellipse`):
+//!   ellipse.points x y w h
+//!       -> bb=<bounding box> c=<center> pts=<points() list> in=<contains() bitmap, row-major, over
+//!          the bounding box grown by a 3 px margin>
+//!   ellipse.areas  x y w h width align
+//!       -> s=<x,y,w,h of offset(+outside)> f=<x,y,w,h of offset(-inside)> sbb=<styled_bounding_box>
+//!   ellipse.styled x y w h fill stroke width align tx ty tw th   (colours `-` or a number; align
+//!          0 = Inside, 1 = Center, 2 = Outside; `tx ty tw th` = bounding box of the target)
+//!       -> log=<call log of draw() on R2> m1=<map of draw() on R1> m2=<map of draw() on R2>
+//!          px=<pixels() sequence, in iteration order>
+//!
+//! Sizes stay <= 128 (+ stroke) so that the `u32` products of `EllipseContains` do not overflow
+//! (C08's topic); the model uses unbounded naturals.
+//!
+//! Oracle (the property texts as predicates on the real results). Lean statements mirrored:
+//!   C05 `ellipse_points_eq_filter_contains`, `ellipse_contains_inside_bbox`;
+//!   C18 `ellipse_contains_iff_ideal`, `ellipse_mirror_x/y`, `ellipse_rows_contiguous`,
+//!       `ellipse_columns_contiguous`, `circle_eq_ellipse_equal_axes`;
+//!   C06 `ellipse_offset_*`, `styled_ellipse_exact`, inside / outside stroke;
+//!   C01 `styled_ellipse_pixels_eq_draw` (R1 map == R2 map == pixels() map).
 use crate::common::*;
+use embedded_graphics::{
+    pixelcolor::Rgb565,
+    prelude::*,
+    primitives::{Circle, ContainsPoint, Ellipse, OffsetOutline, PrimitiveStyleBuilder, StrokeAlignment},
+};
 
 pub struct M;
+
+fn align_of(i: u32) -> StrokeAlignment {
+    match i {
+        0 => StrokeAlignment::Inside,
+        1 => StrokeAlignment::Center,
+        _ => StrokeAlignment::Outside,
+    }
+}
+
+/// the documented split of the stroke width: (inside part, outside part)
+fn split(width: u32, align: u32) -> (u32, u32) {
+    match align {
+        0 => (width, 0),
+        1 => (width - width / 2, width / 2), // the larger half inside
+        _ => (0, width),
+    }
+}
+
+fn col_tok(t: &str) -> Option<u32> {
+    if t == "-" {
+        None
+    } else {
+        Some(t.parse().expect("bad colour"))
+    }
+}
+
+fn fmt_ellipse(e: &Ellipse) -> String {
+    format!("{},{},{},{}", e.top_left.x, e.top_left.y, e.size.width, e.size.height)
+}
+
+/// doubled-coordinate offsets of the pixel centre from the ellipse centre
+fn deltas(e: &Ellipse, p: Point) -> (i64, i64) {
+    let cx = 2 * e.top_left.x as i64 + e.size.width as i64 - 1;
+    let cy = 2 * e.top_left.y as i64 + e.size.height as i64 - 1;
+    (2 * p.x as i64 - cx, 2 * p.y as i64 - cy)
+}
+
+const UNB: (i32, i32, u32, u32) = (-(1 << 20), -(1 << 20), 1 << 21, 1 << 21);
 
 impl Module for M {
     fn name(&self) -> &'static str {
         "ellipse"
     }
     fn rule(&self) -> &'static str {
-        "not built yet"
+        "ellipse.points: every size 0..=14 x 0..=14 (thorough 0..=40 squared) at rotating positions (origin, negative, axis-crossing), thin \
+         ellipses 1..=3 x up to 128, plus seeded random positions/sizes <= 128; ellipse.styled: sizes 0..=7 squared x widths 0..=4 and \
+         max+2 x 3 alignments x 4 colour options x 3 target boxes (unbounded, clipping box not at the origin, empty), plus random larger \
+         cases; ellipse.areas: same sizes x widths x alignments. Non-trivial: both sides >= 1 (points), both sides >= 1 and a colour set \
+         (styled); distinct = distinct op text."
     }
-    fn generate(&self, _pid: &str, _tier: Tier, _rng: &mut Rng, _emit: &mut dyn FnMut(String)) {}
-    fn execute(&self, op: &str, _ctx: &mut Ctx) -> String {
-        panic!("unknown op {}", op)
+
+    fn generate(&self, pid: &str, tier: Tier, rng: &mut Rng, emit: &mut dyn FnMut(String)) {
+        let quick = tier == Tier::Quick;
+        let pos: [(i32, i32); 3] = [(0, 0), (-40, -17), (-5, -3)];
+        if pid == "C05" || pid == "C18" {
+            let smax: u32 = if quick { 14 } else { 40 };
+            for w in 0..=smax {
+                for h in 0..=smax {
+                    let (x, y) = pos[((w + 2 * h) % 3) as usize];
+                    emit(format!("ellipse.points {} {} {} {}", x, y, w, h));
+                }
+            }
+            // thin and flat ellipses (rows / columns without a hit)
+            let long: &[u32] = if quick { &[10, 17, 32, 64, 128] } else { &[10, 17, 23, 32, 47, 64, 90, 101, 128] };
+            for t in 1..=4u32 {
+                for l in long {
+                    emit(format!("ellipse.points -7 3 {} {}", t, l));
+                    emit(format!("ellipse.points -7 3 {} {}", l, t));
+                }
+            }
+            let n = if quick { 60 } else { 600 };
+            for _ in 0..n {
+                let scale = *rng.pick(&[8i64, 64, 1024, 1 << 20]);
+                let x = rng.range(-scale, scale);
+                let y = rng.range(-scale, scale);
+                let m = if quick { 40 } else { 128 };
+                let w = rng.range(0, m);
+                let h = if rng.chance(1, 6) { w } else { rng.range(0, m) };
+                emit(format!("ellipse.points {} {} {} {}", x, y, w, h));
+            }
+        }
+        if pid == "C06" {
+            let cols: [(&str, &str); 4] = [("7", "-"), ("-", "9"), ("7", "9"), ("-", "-")];
+            let boxes: [(i32, i32, u32, u32); 3] = [UNB, (2, 1, 5, 4), (0, 0, 0, 0)];
+            let smax: u32 = if quick { 7 } else { 10 };
+            for w in 0..=smax {
+                for h in 0..=smax {
+                    let mut widths: Vec<u32> = (0..=4).collect();
+                    widths.push(w.max(h) + 2);
+                    for sw in widths {
+                        for a in 0..3u32 {
+                            let (x, y) = pos[((w + h + sw + a) % 3) as usize];
+                            emit(format!("ellipse.areas {} {} {} {} {} {}", x, y, w, h, sw, a));
+                            for (f, s) in cols.iter() {
+                                for (bi, b) in boxes.iter().enumerate() {
+                                    let (bx, by) = if bi == 1 { (x + b.0, y + b.1) } else { (b.0, b.1) };
+                                    emit(format!(
+                                        "ellipse.styled {} {} {} {} {} {} {} {} {} {} {} {}",
+                                        x, y, w, h, f, s, sw, a, bx, by, b.2, b.3
+                                    ));
+                                }
+                            }
+                        }
+                    }
+                }
+            }
+            // thin ellipses and larger / random cases
+            let n = if quick { 200 } else { 3000 };
+            for i in 0..n {
+                let scale = *rng.pick(&[8i64, 64, 1024]);
+                let x = rng.range(-scale, scale);
+                let y = rng.range(-scale, scale);
+                let m = if quick { 40 } else { 110 };
+                let (w, h) = if i % 5 == 0 {
+                    let t = rng.range(1, 4);
+                    let l = rng.range(5, m);
+                    if rng.chance(1, 2) {
+                        (t, l)
+                    } else {
+                        (l, t)
+                    }
+                } else {
+                    (rng.range(0, m), rng.range(0, m))
+                };
+                // keep the stroke area <= 160 px so that the u32 products of `EllipseContains` cannot overflow (C08)
+                let sw = if rng.chance(1, 8) {
+                    (w.min(h) + rng.range(0, 3)).min((160 - w.max(h)) / 2)
+                } else {
+                    rng.range(0, if quick { 6 } else { 9 })
+                };
+                let a = rng.below(3);
+                let (f, s) = *rng.pick(&cols);
+                emit(format!("ellipse.areas {} {} {} {} {} {}", x, y, w, h, sw, a));
+                let b = if rng.chance(1, 3) {
+                    (x + rng.range(-3, w / 2), y + rng.range(-3, h / 2), rng.range(0, w + 4), rng.range(0, h + 4))
+                } else {
+                    (UNB.0 as i64, UNB.1 as i64, UNB.2 as i64, UNB.3 as i64)
+                };
+                emit(format!("ellipse.styled {} {} {} {} {} {} {} {} {} {} {} {}", x, y, w, h, f, s, sw, a, b.0, b.1, b.2, b.3));
+            }
+        }
+    }
+
+    fn execute(&self, op: &str, ctx: &mut Ctx) -> String {
+        let mut t = Toks::new(op);
+        match t.str() {
+            "ellipse.points" => {
+                let tl = t.point();
+                let sz = t.size();
+                let e = Ellipse::new(tl, sz);
+                let (w, h) = (sz.width, sz.height);
+                ctx.count("points");
+                ctx.count(if w == h { "points:equal-axes" } else if w.min(h) <= 3 && w.max(h) >= 8 { "points:thin" } else { "points:general" });
+                if w >= 1 && h >= 1 {
+                    ctx.nontrivial(op);
+                }
+                let bb = e.bounding_box();
+                let pts: Vec<Point> = e.points().collect();
+                let m = 3i32;
+                let (x0, y0) = (tl.x - m, tl.y - m);
+                let (x1, y1) = (tl.x + w as i32 + m, tl.y + h as i32 + m);
+                let mut bits = String::new();
+                let mut accepted: Vec<Point> = Vec::new();
+                let mut outside_bb = None;
+                let mut not_ideal = None;
+                let mut off_band = None;
+                let mut asym = None;
+                let mut ne_circle = None;
+                let (ww, hh) = (w as i64, h as i64);
+                let circle = Circle::new(tl, w);
+                for y in y0..y1 {
+                    for x in x0..x1 {
+                        let p = Point::new(x, y);
+                        let inside = e.contains(p);
+                        bits.push(if inside { '1' } else { '0' });
+                        if inside {
+                            accepted.push(p);
+                            if !bb.contains(p) {
+                                outside_bb = Some(p);
+                            }
+                        }
+                        let (dx, dy) = deltas(&e, p);
+                        // C18: pixel centre strictly inside the ideal ellipse (dx/w)^2 + (dy/h)^2 < 1
+                        let ideal = hh * hh * dx * dx + ww * ww * dy * dy < ww * ww * hh * hh;
+                        if w != h || w > 4 {
+                            if inside != ideal {
+                                not_ideal = Some(p);
+                            }
+                        } else {
+                            // equal axes <= 4: the circle's half-pixel band
+                            let d2 = dx * dx + dy * dy;
+                            if (inside && !(d2 < (ww + 1) * (ww + 1))) || (w >= 1 && d2 <= (ww - 1) * (ww - 1) && !inside) {
+                                off_band = Some(p);
+                            }
+                        }
+                        if w == h && circle.contains(p) != inside {
+                            ne_circle = Some(p);
+                        }
+                        let mx = Point::new(2 * tl.x + w as i32 - 1 - x, y);
+                        let my = Point::new(x, 2 * tl.y + h as i32 - 1 - y);
+                        if w >= 1 && h >= 1 && (e.contains(mx) != inside || e.contains(my) != inside) {
+                            asym = Some(p);
+                        }
+                    }
+                }
+                // C05
+                ctx.expect(pts == accepted, "C05:ellipse-points-ne-contains", || {
+                    format!("points {} vs contains {}", fmt_pts(pts.iter().copied()), fmt_pts(accepted.iter().copied()))
+                });
+                ctx.expect(outside_bb.is_none(), "C05:ellipse-contains-outside-bbox", || format!("{:?}", outside_bb));
+                ctx.expect(pts.iter().all(|p| bb.contains(*p)), "C05:ellipse-points-outside-bbox", || "points() outside bounding box".into());
+                ctx.expect(
+                    pts.windows(2).all(|w| (w[0].y, w[0].x) < (w[1].y, w[1].x)),
+                    "C05:ellipse-points-not-row-major-once",
+                    || fmt_pts(pts.iter().copied()),
+                );
+                // (probes stay within 40 px: further out the u32 products of `EllipseContains` overflow, C08)
+                let far = [
+                    Point::new(tl.x - 40, tl.y),
+                    Point::new(tl.x + w as i32 + 40, tl.y + h as i32 / 2),
+                    Point::new(tl.x + w as i32 / 2, tl.y - 40),
+                    Point::new(tl.x + w as i32 / 2, tl.y + h as i32 + 40),
+                ];
+                ctx.expect(far.iter().all(|p| !e.contains(*p)), "C05:ellipse-contains-outside-bbox", || "far probe accepted".into());
+                // C18
+                ctx.expect(not_ideal.is_none(), "C18:ellipse-not-ideal", || format!("{:?}", not_ideal));
+                ctx.expect(off_band.is_none(), "C18:ellipse-equal-axes-outside-half-pixel-band", || format!("{:?}", off_band));
+                ctx.expect(asym.is_none(), "C18:ellipse-not-mirror-symmetric", || format!("{:?}", asym));
+                ctx.expect(ne_circle.is_none(), "C18:circle-ne-ellipse-equal-axes", || format!("{:?}", ne_circle));
+                if w == h {
+                    let cpts: Vec<Point> = circle.points().collect();
+                    ctx.expect(cpts == pts, "C18:circle-ne-ellipse-equal-axes", || "points() differ".into());
+                }
+                {
+                    let mut ok_rows = true;
+                    let mut ok_cols = true;
+                    for y in y0..y1 {
+                        let xs: Vec<i32> = accepted.iter().filter(|p| p.y == y).map(|p| p.x).collect();
+                        if !xs.is_empty() && (xs[xs.len() - 1] - xs[0] + 1) as usize != xs.len() {
+                            ok_rows = false;
+                        }
+                    }
+                    for x in x0..x1 {
+                        let mut ys: Vec<i32> = accepted.iter().filter(|p| p.x == x).map(|p| p.y).collect();
+                        ys.sort();
+                        if !ys.is_empty() && (ys[ys.len() - 1] - ys[0] + 1) as usize != ys.len() {
+                            ok_cols = false;
+                        }
+                    }
+                    ctx.expect(ok_rows, "C18:ellipse-row-not-contiguous", || fmt_pts(accepted.iter().copied()));
+                    ctx.expect(ok_cols, "C18:ellipse-column-not-contiguous", || fmt_pts(accepted.iter().copied()));
+                }
+                if w >= 1 && h >= 1 {
+                    ctx.expect(!accepted.is_empty(), "C18:ellipse-empty", || "non-degenerate ellipse without points".into());
+                }
+                format!("bb={} c={} pts={} in={}", fmt_rect(&bb), fmt_pt(e.center()), fmt_pts(pts), bits)
+            }
+            "ellipse.areas" => {
+                let tl = t.point();
+                let sz = t.size();
+                let sw = t.u32();
+                let a = t.u32();
+                let e = Ellipse::new(tl, sz);
+                let (w, h) = (sz.width, sz.height);
+                let (ins, out) = split(sw, a);
+                ctx.count("areas");
+                let sa = e.offset(out as i32);
+                let fa = e.offset(-(ins as i32));
+                let style = PrimitiveStyleBuilder::<Rgb565>::new()
+                    .stroke_color(Rgb565::from_num(9))
+                    .stroke_width(sw)
+                    .stroke_alignment(align_of(a))
+                    .build();
+                let sbb = e.into_styled(style).bounding_box();
+                if w >= 1 && h >= 1 {
+                    ctx.nontrivial(op);
+                    ctx.expect(
+                        sa.top_left == tl - Point::new(out as i32, out as i32) && sa.size == Size::new(w + 2 * out, h + 2 * out),
+                        "C06:ellipse-stroke-area-not-grown-by-outside-width",
+                        || fmt_ellipse(&sa),
+                    );
+                    ctx.expect(sbb == sa.bounding_box(), "C06:ellipse-styled-bbox-ne-stroke-area-bbox", || fmt_rect(&sbb));
+                    if w > 2 * ins && h > 2 * ins {
+                        ctx.count("areas:fill-nondegenerate");
+                        ctx.expect(
+                            fa.top_left == tl + Point::new(ins as i32, ins as i32) && fa.size == Size::new(w - 2 * ins, h - 2 * ins),
+                            "C06:ellipse-fill-area-not-shrunk-by-inside-width",
+                            || fmt_ellipse(&fa),
+                        );
+                    } else {
+                        ctx.count("areas:fill-collapsed");
+                        ctx.expect(
+                            fa.size == Size::new(w.saturating_sub(2 * ins), h.saturating_sub(2 * ins)),
+                            "C06:ellipse-fill-area-not-shrunk-by-inside-width",
+                            || fmt_ellipse(&fa),
+                        );
+                    }
+                }
+                format!("s={} f={} sbb={}", fmt_ellipse(&sa), fmt_ellipse(&fa), fmt_rect(&sbb))
+            }
+            "ellipse.styled" => {
+                let tl = t.point();
+                let sz = t.size();
+                let fill = col_tok(t.str());
+                let stroke = col_tok(t.str());
+                let sw = t.u32();
+                let a = t.u32();
+                let tbox = t.rect();
+                let e = Ellipse::new(tl, sz);
+                let (w, h) = (sz.width, sz.height);
+                let mut sb = PrimitiveStyleBuilder::<Rgb565>::new().stroke_width(sw).stroke_alignment(align_of(a));
+                if let Some(f) = fill {
+                    sb = sb.fill_color(Rgb565::from_num(f));
+                }
+                if let Some(s) = stroke {
+                    sb = sb.stroke_color(Rgb565::from_num(s));
+                }
+                let style = sb.build();
+                let styled = e.into_styled(style);
+                ctx.count("styled");
+                ctx.count(match (fill.is_some(), stroke.is_some()) {
+                    (true, false) => "styled:fill-only",
+                    (false, true) => "styled:stroke-only",
+                    (true, true) => "styled:both",
+                    (false, false) => "styled:none",
+                });
+                ctx.count(match a {
+                    0 => "styled:inside",
+                    1 => "styled:center",
+                    _ => "styled:outside",
+                });
+                let (ins, out) = split(sw, a);
+                match (2 * ins >= w, 2 * ins >= h) {
+                    (true, true) => ctx.count("styled:fill-collapsed-both"),
+                    (true, false) => ctx.count("styled:fill_w=0"),
+                    (false, true) => ctx.count("styled:fill_h=0"),
+                    _ => {}
+                }
+                if w.min(h) >= 1 && w.min(h) <= 3 && w.max(h) >= 8 {
+                    ctx.count("styled:thin");
+                }
+                if tbox.is_zero_sized() {
+                    ctx.count("styled:target-empty");
+                }
+                if w >= 1 && h >= 1 && (fill.is_some() || stroke.is_some()) {
+                    ctx.nontrivial(op);
+                }
+                let mut r1 = R1::<Rgb565>::new(tbox);
+                let mut r2 = R2::<Rgb565>::new(tbox);
+                let mut r3 = R1::<Rgb565>::new(tbox);
+                let e1 = styled.draw(&mut r1);
+                let e2 = styled.draw(&mut r2);
+                let px: Vec<((i32, i32), u32)> = styled.pixels().map(|Pixel(p, c)| ((p.x, p.y), c.num())).collect();
+                let e3 = r3.draw_iter(styled.pixels());
+                ctx.expect(e1.is_ok() && e2.is_ok() && e3.is_ok(), "ellipse-draw-error", || "draw returned Err".into());
+                ctx.expect(r1.rec.map == r2.rec.map, "ellipse-paths-differ:r1-r2", || {
+                    format!("R1 {} R2 {}", r1.rec.fmt_map(), r2.rec.fmt_map())
+                });
+                ctx.expect(r1.rec.map == r3.rec.map, "ellipse-paths-differ:draw-pixels", || {
+                    format!("draw {} pixels {}", r1.rec.fmt_map(), r3.rec.fmt_map())
+                });
+                let sa = e.offset(out as i32);
+                let fa = e.offset(-(ins as i32));
+                let g = (out + 3) as i32;
+                let mut bad = None;
+                let mut inside_viol = None;
+                let mut outside_viol = None;
+                let mut painted = 0usize;
+                for y in (tl.y - g)..(tl.y + h as i32 + g) {
+                    for x in (tl.x - g)..(tl.x + w as i32 + g) {
+                        let p = Point::new(x, y);
+                        let want: Option<u32> = if !tbox.contains(p) {
+                            None
+                        } else if fa.contains(p) {
+                            fill
+                        } else if sa.contains(p) && sw > 0 {
+                            stroke
+                        } else {
+                            None
+                        };
+                        let got = r1.rec.map.get(&(y, x)).copied();
+                        if got.is_some() {
+                            painted += 1;
+                        }
+                        if got != want {
+                            bad = Some((p, got, want));
+                        }
+                        if a == 0 && got.is_some() && !e.contains(p) {
+                            inside_viol = Some(p);
+                        }
+                        if a == 2 && got.is_some() && got == stroke && fill != stroke && e.contains(p) {
+                            outside_viol = Some(p);
+                        }
+                    }
+                }
+                ctx.expect(bad.is_none(), "C06:ellipse-styled-map-ne-areas", || format!("{:?}", bad));
+                ctx.expect(painted == r1.rec.map.len(), "C06:ellipse-styled-paints-outside-stroke-area-box", || {
+                    format!("{} painted in the probe box, {} in the map", painted, r1.rec.map.len())
+                });
+                ctx.expect(inside_viol.is_none(), "C06:ellipse-inside-stroke-paints-outside-shape", || format!("{:?}", inside_viol));
+                ctx.expect(outside_viol.is_none(), "C06:ellipse-outside-stroke-paints-inside-shape", || format!("{:?}", outside_viol));
+                let mut pxs = String::new();
+                for (i, ((x, y), c)) in px.iter().enumerate() {
+                    if i > 0 {
+                        pxs.push(';');
+                    }
+                    pxs.push_str(&format!("{},{},{}", x, y, c));
+                }
+                if pxs.is_empty() {
+                    pxs.push('-');
+                }
+                format!("log={} m1={} m2={} px={}", r2.rec.fmt_log(), r1.rec.fmt_map(), r2.rec.fmt_map(), pxs)
+            }
+            other => panic!("unknown op {}", other),
+        }
     }
 }
